@@ -279,10 +279,20 @@ def clause2 (tcp : Bool) (p : Policy) : Policy :=
   if p.action == .allow then { p with rules := p.rules.filter (ruleExpressible tcp p.ns) }
   else { p with rules := p.rules.map (remainingRule tcp p.ns) }
 
-/-- A policy applies to a workload iff it lives in the root namespace or in the workload's
-    namespace and its selector (if any) is a subset of the workload's labels. -/
+/-- A policy applies to a workload (sidecar or gateway) iff it lives in the root namespace or in the
+    workload's namespace and: for a workload without the Gateway API gateway-name label, it has no
+    targetRefs and its selector (if any) is a subset of the workload's labels; for a Gateway API
+    gateway, either it has no targetRefs and its selector matches, or one of its targetRefs names this
+    Gateway (same namespace). -/
 def applies (w : Workload) (p : Policy) : Bool :=
-  (p.ns == w.rootNs || p.ns == w.ns) && p.selector.all fun kv => w.labels.contains kv
+  (p.ns == w.rootNs || p.ns == w.ns) &&
+  (match lookupLabel gatewayNameLabel w.labels with
+   | none => p.targetRefs.isEmpty && p.selector.all fun kv => w.labels.contains kv
+   | some gw =>
+     if p.targetRefs.isEmpty then p.selector.all fun kv => w.labels.contains kv
+     else p.targetRefs.any fun ref =>
+       w.ns == p.ns && (ref.2.2.2.isEmpty || ref.2.2.2 == w.ns) &&
+       ref.1 == gatewayGroup && ref.2.1 == "Gateway".toList && ref.2.2.1 == gw)
 
 /-- Policies that are enforced with the given action (dry-run policies are not enforced). -/
 def enforced (a : Action) (ps : List Policy) : List Policy :=
